@@ -200,7 +200,7 @@ def run(tier):
                 ops.append(st.gen_bwd_op(rng, t, u, mode=4, cap=cap, argmask=31))
         cases.append(common.Case("c02-s%d" % ti, ["HOOK trace 1", "HOOK exact 1"], ops, {"table": t, "kind": "sweep"}))
     # wide generated tables (all opcode families, backward rules incl. nofor multipass/match/swap), cells of the rules
-    cases += st.wide_cases(rng, 200 if tier == "quick" else 3000, per_table=4, back=True, exact=True, tag="c02w", budget=3000000)
+    cases += st.wide_cases(rng, 200 if tier == "quick" else 3000, per_table=4, back=True, exact=True, tag="c02w", budget=3000000, groupreplace=True)
     # composite generated tables (translation rules between correct and pass2-4 stages whose rules lengthen and shorten),
     # inputs built from the rules' own literals, exact-size caller arrays, capacities around every stage's length; the
     # whole call is also computed by the model alone (MCALL)
